@@ -117,8 +117,21 @@ func startLedDeviceRO(cfg config.DeviceConfig, d *Desc, event string, index, por
 func startLedDeviceCap(cfg config.DeviceConfig, d *Desc, event string, index, port int, midiIn <-chan midi.Event, outCap int) *ledDevice {
 	ld := &ledDevice{in: make(chan *input.InputEvent), out: make(chan midi.Event, outCap), done: make(chan string, 1), index: index}
 	ld.inDev = ledInputDevice(d, event)
-	ld.dev = device.NewDevice(ld.inDev, cfg, ld.out, midiIn, ledDeviceNoLogs, port, make(chan os.Signal, 16))
+	// the application reads its signal channel for as long as it runs (cmd/hidi handleSigs); so does the harness, for as
+	// long as the device is processed
+	sigs, sigsDone := make(chan os.Signal, 1), make(chan struct{})
 	go func() {
+		for {
+			select {
+			case <-sigs:
+			case <-sigsDone:
+				return
+			}
+		}
+	}()
+	ld.dev = device.NewDevice(ld.inDev, cfg, ld.out, midiIn, ledDeviceNoLogs, port, sigs)
+	go func() {
+		defer close(sigsDone)
 		defer func() {
 			if p := recover(); p != nil {
 				buf := make([]byte, 1<<14)
@@ -347,6 +360,7 @@ func (lm *ledModel) expect(i int) ledExpect {
 	}
 	learn := -1
 	unknownChannel := false
+	unknownChannels := 0
 	onCurrent := lm.ext[st.Channel][byte(pitch)]
 	for ch := 0; ch < 16; ch++ {
 		if !lm.ext[ch][byte(pitch)] {
@@ -364,6 +378,7 @@ func (lm *ledModel) expect(i int) ledExpect {
 			why = append(why, fmt.Sprintf("sounding on MIDI input, channel %d", ch+1))
 		} else {
 			unknownChannel = true
+			unknownChannels++
 			learn = ch
 			why = append(why, fmt.Sprintf("sounding on MIDI input, channel %d (colour not learned yet)", ch+1))
 		}
@@ -374,7 +389,8 @@ func (lm *ledModel) expect(i int) ledExpect {
 	e := ledExpect{Options: opts, LearnCh: -1, Why: fmt.Sprintf("note key base %d, pitch %d: %s", k.Note, pitch, strings.Join(why, " + "))}
 	if unknownChannel {
 		e.NotBase = [][3]byte{base, rgbOf(cols[3])}
-		if len(opts) == 0 {
+		// the colour on display can be attributed to a channel only when a single channel of unknown colour sounds the pitch
+		if len(opts) == 0 && unknownChannels == 1 {
 			e.LearnCh = learn
 		}
 	}
@@ -632,13 +648,28 @@ func checkC17Once(c C17Case) (nontrivial bool, v *Violation) {
 			deadline := time.Now().Add(ledObserveWait)
 			matched := false
 			lastWhy := "no frame arrived"
+			fence := time.Now()
 			for time.Now().Before(deadline) {
 				fr := srv.Since(ci, seq0)
-				if len(fr) >= 3 { // frames 1-2 after the fence may have been computed before it
-					f := fr[len(fr)-1]
+				// What the keyboard shows is the newest frame it was sent. Frames 1-2 after the fence may have been computed
+				// before it, so the third one counts; a loop that only sends when the picture changes (nothing says it has
+				// to repeat itself every cycle) has had six of its cycles after 60 ms - if it sent nothing newer, the frame
+				// that stands is its answer, and it has to stay the answer for a few more cycles
+				settled := len(fr) < 3 && time.Since(fence) >= 60*time.Millisecond
+				if last := srv.Last(ci); len(fr) >= 3 || (settled && last != nil) {
+					f := *last
 					if len(f.Colors) != len(c.LEDs) {
 						lastWhy = fmt.Sprintf("frame has %d colours for %d LEDs", len(f.Colors), len(c.LEDs))
 					} else if ok, why, lr, lc := lm.match(f.Colors); ok {
+						if settled {
+							time.Sleep(40 * time.Millisecond)
+							if l2 := srv.Last(ci); l2 == nil || len(l2.Colors) != len(c.LEDs) {
+								continue
+							} else if ok2, _, _, _ := lm.match(l2.Colors); !ok2 {
+								continue
+							}
+							classify("observation decided on a frame that was not repeated")
+						}
 						for k, col := range lr {
 							lm.roles[k] = col
 						}
